@@ -393,4 +393,119 @@ theorem aors_ui_refines (isSub : Bool) (s : St) (w u : Nat) (vval : Nat) (hs : s
   rw [e1, halloc]
   exact B1.of_grown G
 
+/-! ## mpz_mul_2exp -/
+
+/-- store `r` at wp[k, k+|r|), then (carry case) `e` right above it, then zeros at wp[0, k), set the size -/
+theorem tail_shift (s : St) (w k : Nat) (r e : List Nat) (neg c : Bool) (hs : s.ok = true) (hc : c = true)
+    (hb : BWF (s.h w).buf) (hl : Limbs r) (he : Limbs e) (hr : k + r.length + e.length ≤ (s.h w).buf.alloc) :
+    let s1 := (s.chk c).wr ((s.PTR w).add k) r
+    let s2 := s1.wr ((s.PTR w).add (r.length + k)) e
+    let s3 := MPN_ZERO s2 (s.PTR w) k
+    Refines s (s3.setSize w (sgn neg (r.length + k + e.length))) w
+      ⟨(s.h w).buf.alloc, sgn neg (r.length + k + e.length), List.replicate k 0 ++ (r ++ e)⟩ := by
+  intro s1 s2 s3
+  obtain ⟨A, X, R, hL, hA, hX⟩ := decomp3 (s.h w).buf.limbs k r.length (by rw [hb.1]; omega)
+  have hRlen : e.length ≤ R.length := by
+    have := congrArg List.length hL; simp [hb.1] at this; omega
+  obtain ⟨A', Y, R', hR, hA', hY⟩ := decomp3 R 0 e.length (by omega)
+  have hA'0 : A' = [] := List.length_eq_zero_iff.mp hA'
+  subst hA'0
+  simp only [List.nil_append] at hR
+  have hb1 : BWF (s1.h w).buf := wr_BWF _ _ hl _ hb
+  have hb2 : BWF (s2.h w).buf := wr_BWF _ _ he _ hb1
+  obtain ⟨L1, ok1⟩ := wr_decomp (s.chk c) ((s.PTR w).add k) r A X R (by simpa using hL) (by simpa using hb.1)
+    (by simpa using hA) hX
+  simp only [add_id, PTR_id] at L1
+  obtain ⟨L2, ok2⟩ := wr_decomp s1 ((s.PTR w).add (r.length + k)) e (A ++ r) Y R'
+    (by simp only [add_id, PTR_id]; rw [L1, hR]; simp) (by simpa using hb1.1) (by simp [hA]; omega) hY
+  simp only [add_id, PTR_id] at L2
+  obtain ⟨L3, ok3⟩ := wr_decomp s2 (s.PTR w) (List.replicate k 0) [] A (r ++ e ++ R')
+    (by simp only [PTR_id]; rw [L2]; simp) (by simpa using hb2.1) (by simp) (by simp [hA])
+  simp only [PTR_id, List.nil_append] at L3
+  have hp1 : s.PTR w = s1.PTR w := by simp [s1]
+  have hp2 : s.PTR w = s2.PTR w := by simp [s2, s1]
+  refine ⟨?_, ?_, ?_, ?_⟩
+  · simp only [setSize_ok, s3, MPN_ZERO, ok3]
+    rw [ok2, ok1]
+    simp [hs, hc, s2, s1]
+  · simp only [view, setSize_size, setSize_buf, natAbs_sgn, s3, MPN_ZERO, L3, wr_alloc]
+    simp only [s2, s1, wr_alloc, chk_h]
+    congr 1
+    rw [← List.append_assoc, ← List.append_assoc, List.take_append_of_le_length (by simp; omega)]
+    exact List.take_of_length_le (by simp; omega)
+  · simp only [setSize_buf, s3, MPN_ZERO]
+    exact wr_BWF _ _ (Mpz.Limbs_replicate_zero k) _ hb2
+  · intro x hx
+    rw [setSize_other _ _ _ hx]
+    simp only [s3, MPN_ZERO, s2, s1]
+    rw [wr_other _ _ _ (by simpa using hx), wr_other _ _ _ (by simpa using hx), wr_other _ _ _ (by simpa using hx)]; rfl
+
+/-- mul_2exp.c:46-68 on any state in which w has room for |usize| + limb_cnt + 1 limbs -/
+theorem mul_2exp_body_refines (s1 : St) (w u : Nat) (usize : Int) (d : List Nat) (k c : Nat)
+    (hok1 : s1.ok = true) (hbw : BWF (s1.h w).buf) (hLu : Limbs d) (hul : d.length = usize.natAbs) (hc : c < 64)
+    (hroom : usize.natAbs + k + 1 ≤ (s1.h w).buf.alloc)
+    (ea : s1.rd (s1.PTR u) usize.natAbs = d) (oka : s1.rdOk (s1.PTR u) usize.natAbs = true) :
+    Refines s1 (mul_2exp_body s1 w u usize k c) w
+      ⟨(s1.h w).buf.alloc, sgn (usize < 0) (List.replicate k 0 ++ Mpz.mul_2exp_hi d c).length,
+        List.replicate k 0 ++ Mpz.mul_2exp_hi d c⟩ := by
+  unfold mul_2exp_body Mpz.mul_2exp_hi
+  have hlive : ∀ (r : List Nat), ((s1.chk true).wr ((s1.PTR w).add k) r).live ((s1.PTR w).add (r.length + k)) = true := by
+    intro r; simp
+  by_cases h0 : c = 0
+  · subst h0
+    simp only [bne_self_eq_false, Bool.false_eq_true, if_false, MPN_COPY, ea, oka]
+    have T := tail_shift s1 w k d [] (decide (usize < 0)) true hok1 rfl hbw hLu (by intro x hx; cases hx)
+      (by simp; omega)
+    simp only [List.length_nil, Nat.add_zero, List.append_nil] at T
+    rw [wr_nil _ _ (hlive d) (by simp; omega)] at T
+    have e : (List.replicate k 0 ++ d).length = d.length + k := by simp; omega
+    rw [e, ← hul]; exact T
+  · have h0' : (c != 0) = true := by simpa using h0
+    obtain ⟨_, _, ll, ln⟩ := Mpz.K.lshift_val d c hLu (by omega) (by omega)
+    simp only [h0', if_true, mpn_lshift, ea, oka]
+    by_cases hcy : (Mpir.lshift d c).2 = 0
+    · simp only [hcy, bne_self_eq_false, Bool.false_eq_true, if_false]
+      have T := tail_shift s1 w k (Mpir.lshift d c).1 [] (decide (usize < 0)) true hok1 rfl hbw ll (by intro x hx; cases hx)
+        (by simp; omega)
+      simp only [List.length_nil, Nat.add_zero, List.append_nil] at T
+      rw [wr_nil _ _ (hlive _) (by simp; omega)] at T
+      have e : (List.replicate k 0 ++ (Mpir.lshift d c).1).length = (Mpir.lshift d c).1.length + k := by simp; omega
+      rw [e, ln, ← hul]; rw [ln] at T; exact T
+    · have hcy' : ((Mpir.lshift d c).2 != 0) = true := by simpa using hcy
+      simp only [hcy', if_true]
+      have hcyB : (Mpir.lshift d c).2 < B := by
+        have := (Mpz.K.lshift_val d c hLu (by omega) (by omega)).2.1
+        have h2 : 2 ^ c ≤ 2 ^ 64 := Nat.pow_le_pow_right (by omega) (by omega)
+        unfold B; omega
+      have T := tail_shift s1 w k (Mpir.lshift d c).1 [(Mpir.lshift d c).2] (decide (usize < 0)) true hok1 rfl hbw ll
+        (by intro x hx; simp at hx; omega) (by simp; omega)
+      have e : (List.replicate k 0 ++ ((Mpir.lshift d c).1 ++ [(Mpir.lshift d c).2])).length = (Mpir.lshift d c).1.length + k + 1 := by
+        simp; omega
+      rw [e, ln, ← hul]
+      simp only [List.length_cons, List.length_nil, Nat.zero_add] at T
+      rw [ln] at T
+      simpa [St.store] using T
+
+theorem mul_2exp_refines (s : St) (w u : Nat) (cnt : Nat) (hs : s.ok = true) (hw : OWF (s.h w)) (hu : OWF (s.h u)) :
+    Refines s (mul_2exp 1 s w u cnt) w (Mpz.mul_2exp (view (s.h w)) (view (s.h u)) cnt) := by
+  unfold mul_2exp Mpz.mul_2exp
+  simp only [St.SIZ]
+  have e1 : (view (s.h u)).size = (s.h u).size := rfl
+  rw [e1]
+  by_cases h0 : (s.h u).size = 0
+  · simp only [h0, beq_self_eq_true, if_true]
+    refine ⟨by simpa using hs, by simp [view], by simpa using hw.1, fun x hx => setSize_other _ _ _ hx⟩
+  · have h0' : ((s.h u).size == 0) = false := by simpa using h0
+    simp only [h0', Bool.false_eq_true, if_false]
+    have G := MPZ_REALLOC_grown s w ((s.h u).size.natAbs + cnt / 64 + 1) hw
+    obtain ⟨ea, oka⟩ := grown_rd G u (s.h u).size.natAbs hu (Nat.le_refl _)
+    have hul := view_d_length hu
+    rw [List.take_of_length_le (by omega)] at ea
+    have B1 := mul_2exp_body_refines _ w u (s.h u).size (view (s.h u)).d (cnt / 64) (cnt % 64) (by rw [G.ok]; exact hs)
+      (G.bwf w hw.1) (view_limbs hu) hul (Nat.mod_lt _ (by omega)) G.room ea oka
+    have halloc : (Mpz.grow (view (s.h w)) ((s.h u).size.natAbs + cnt / 64 + 1)).alloc =
+      ((MPZ_REALLOC s w ((s.h u).size.natAbs + cnt / 64 + 1)).h w).buf.alloc := G.alloc.symm
+    rw [halloc]
+    exact B1.of_grown G
+
 end Mpir.AllocSafe
